@@ -107,14 +107,15 @@ pub fn upload_run(args: &[String]) -> anyhow::Result<()> {
         }
         // one upload in five sits at the length switches: answers whose payload makes the body 254 / 255 / 256 bytes long or a
         // TLV length 127 / 128, 255 / 256 (block size or last block of 100..135 / 225..265 bytes)
-        // (the lengths right at the switches - 113..131 and 240..258, so that the payload, the file object around it (+11) and the
-        // container around that (+2) each pass 127 / 128 and 255 / 256 - are walked through one by one, whatever the seed)
+        // (the lengths right at the switches - 113..131 and 226..262, so that the payload, the file object around it (+11), the
+        // container around that (+2) and the APDU body (+18 in all) each pass 127 / 128 and 254 / 255 / 256 - are walked through one
+        // by one, whatever the seed)
         let walking = k % 3 == 0;
         let at_switch = walking || rng.chance(1, 8);
-        let walk = (k / 3) + (seed as usize % 1000) * 7;
+        let walk = (k / 3) + (seed as usize % 1000) * 10;
         let switch_len = move |rng: &mut Rng| -> u32 {
             if walking {
-                let list: Vec<u32> = (113..=131).chain(240..=258).collect();
+                let list: Vec<u32> = (113..=131).chain(226..=262).collect();
                 list[walk % list.len()]
             } else if rng.chance(1, 2) { rng.range(100, 135) as u32 } else { rng.range(225, 265) as u32 }
         };
